@@ -3800,7 +3800,7 @@ class ScoreVariant(object):
             # correspondences between objects (timepoints, notes, measures,
             # etc), in o_map
             o_map = {}
-            o_new = set()
+            o_new = []
             tp = start
             while tp != end:
                 # make a new timepoint, corresponding to tp
@@ -3853,7 +3853,7 @@ class ScoreVariant(object):
                     o_copy = copy(o)
                     # add it to the set of new objects (for which the refs will
                     # be replaced)
-                    o_new.add(o_copy)
+                    o_new.append(o_copy)
                     # keep track of the correspondence between o and o_copy
                     o_map[o] = o_copy
                     # add the start of the new object to the part
